@@ -37,6 +37,9 @@ func genParams(rt *rapid.T, seedTag string) sim.Params {
 	p.NumEth = 3
 	p.Evidence.BlockVotesDiff = 1000 // keep the missed-votes logic away
 	p.PreEthBalances = nil
+	if u.N(2, "ethcap") == 0 {
+		p.EthCap = "1000000000000000000000" // 1000 ether; the default of 2 ether refuses every lock of main-net size
+	}
 	for i := 0; i < 3; i++ {
 		if u.N(4, "preeth") != 0 {
 			p.PreEthBalances = append(p.PreEthBalances, sim.PreBal{User: i, Cur: "ETH", Amount: fmt.Sprint(u.Range(1, 900000, "preethamt"))})
@@ -116,17 +119,41 @@ func (g *gen) remember(kind string, raw []byte, owner int, tx txgen.Tx) {
 		Truth: g.rng(0, 9, "truth") < 6, Block: g.block})
 }
 
+// lockAmount: wei amounts of every size a lock can carry — dust, ether-sized values (10^15..3*10^19) and the
+// neighbourhood of the machine-word boundaries 2^63 and 2^64 (about 9.22 and 18.45 ether).
+func (g *gen) lockAmount() *big.Int {
+	switch g.rng(0, 5, "amt-shape") {
+	case 3:
+		return new(big.Int).Mul(big.NewInt(int64(g.rng(1, 30000, "amt-milli"))), big.NewInt(1e15))
+	case 4:
+		b := new(big.Int).Lsh(big.NewInt(1), uint(63+g.rng(0, 1, "amt-word")))
+		return b.Add(b, big.NewInt(int64(g.rng(-2, 2, "amt-off"))))
+	case 5:
+		return new(big.Int).Mul(big.NewInt(int64(g.rng(1, 1000000, "amt-micro"))), big.NewInt(1e12))
+	}
+	return big.NewInt(int64(g.rng(1, 1000000, "amt")))
+}
+
+// upTo draws an amount in 1..bal (bal > 0).
+func (g *gen) upTo(bal *big.Int) *big.Int {
+	if bal.IsInt64() && bal.Int64() < 1<<40 {
+		return big.NewInt(int64(g.rng(1, int(bal.Int64()), "amt")))
+	}
+	a := new(big.Int).Mul(bal, big.NewInt(int64(g.rng(1, 1000, "amt-permille"))))
+	return a.Div(a, big.NewInt(1000))
+}
+
 func (g *gen) lock() txgen.Tx {
 	ui, u := g.user("u")
 	e := g.ethUser("e")
 	if g.rng(0, 2, "erc") == 0 {
-		a := big.NewInt(int64(g.rng(1, 1000000, "amt")))
+		a := g.lockAmount()
 		raw := txgen.ERC20LockRaw(e, g.nextNonce(e), &sim.TestTokenContract, sim.ERCLockContract, a)
 		tx := txgen.ERC20Lock(u, u.Addr, raw, g.w.Fee, g.w.Memo())
 		g.remember("ERC20_LOCK", raw, ui, tx)
 		return tx
 	}
-	a := big.NewInt(int64(g.rng(1, 1000000, "amt")))
+	a := g.lockAmount()
 	raw := txgen.EthLockRaw(e, g.nextNonce(e), &sim.LockRedeemContract, a)
 	tx := txgen.EthLock(u, u.Addr, raw, g.w.Fee, g.w.Memo())
 	g.remember("ETH_LOCK", raw, ui, tx)
@@ -152,7 +179,7 @@ func (g *gen) redeem() txgen.Tx {
 	tag := "amt-ok"
 	switch {
 	case bal.Sign() > 0 && g.pct(80, "fits"):
-		a = big.NewInt(int64(g.rng(1, int(bal.Int64()), "amt")))
+		a = g.upTo(bal)
 		if g.pct(15, "all") {
 			a = new(big.Int).Set(bal)
 			tag = "amt-all"
@@ -265,7 +292,7 @@ func (g *gen) send() txgen.Tx {
 	bal := amt(g.m.led, lkey(from.Addr, cur))
 	a := big.NewInt(1)
 	if bal.Sign() > 0 {
-		a = big.NewInt(int64(g.rng(1, int(bal.Int64()), "amt")))
+		a = g.upTo(bal)
 	}
 	return txgen.Send(from, from.Addr, to.Addr, txgen.Amt(cur, a), g.w.Fee, g.w.Memo())
 }
